@@ -1050,12 +1050,18 @@ where
             comments.with_leading(span.lo, |comments| {
                 let pragma = comments.iter().find_map(|comment| {
                     let trimmed = comment.text.trim();
-                    trimmed
+                    let rest = trimmed
                         .strip_prefix('*')
                         .unwrap_or(trimmed)
                         .trim()
-                        .strip_prefix("@jsx")
-                        .map(str::trim)
+                        .strip_prefix("@jsx")?;
+                    // `@jsx` must be followed by whitespace (not `@jsxImportSource`, `@jsxFrag`, ...);
+                    // the pragma is the next word only
+                    if rest.starts_with(char::is_whitespace) {
+                        rest.split_whitespace().next()
+                    } else {
+                        None
+                    }
                 });
                 if let Some(pragma) = pragma {
                     self.pragma = Some(pragma.to_string());
